@@ -44,3 +44,4 @@ pub fn same_rows(a: &[RecordBatch], b: &[RecordBatch]) -> bool {
     let cb = arrow_select::concat::concat_batches(&schema(), b.iter()).unwrap();
     ca == cb
 }
+
